@@ -9,6 +9,7 @@ import (
 	"os"
 	"strconv"
 	"strings"
+	"sync/atomic"
 	"time"
 
 	"github.com/NethermindEth/juno/db"
@@ -23,6 +24,9 @@ import (
 )
 
 var errCb = errors.New("c15 callback failure")
+
+// hangs counts calls that did not return within their deadline (each costs seconds)
+var hangs atomic.Int64
 
 // quiet logger: pebble prints "leaked iterators" etc. through the logger; the harness decides itself
 type nopLogger struct{}
@@ -300,7 +304,7 @@ func doHas(r db.KeyValueReader, o Op) string {
 	return strconv.FormatBool(ok)
 }
 
-const scanCap = 100000
+const scanCap = 5000
 
 func doScan(r db.KeyValueReader, o Op) string {
 	it, err := r.NewIterator(bs(o.Key, o.NilB), o.U)
@@ -352,7 +356,7 @@ func (w *World) Exec(o Op) (out string) {
 	if w.poisoned {
 		return "poisoned"
 	}
-	deadline := 20 * time.Second
+	deadline := 5 * time.Second
 	if o.K == "getw" || o.K == "xupdate" {
 		deadline = 1500 * time.Millisecond
 	}
@@ -370,6 +374,7 @@ func (w *World) Exec(o Op) (out string) {
 		return s
 	case <-time.After(deadline):
 		w.poisoned = true
+		hangs.Add(1)
 		return "hang"
 	}
 }
